@@ -1511,6 +1511,91 @@ theorem Spec.Steps.cap_fixed {s s' : Spec} {ops : List VOp} (h : Spec.Steps s op
     have hf := h1.fixed_eq
     rw [ih (by rw [hf, hfx]) (by intro o ho; rw [hf]; exact hall o (List.mem_cons_of_mem _ ho)), hc]
 
+/-- the operation cannot meet the capacity boundary in this state (the `shrink_*` requests are excluded: the storage may
+always decline them) -/
+def VOp.Roomy (s : Spec) : VOp → Prop
+  | .push | .tpush | .insert _ | .tinsert _ => s.items.length < s.cap
+  | .splice a b k _ => a + k + (s.items.length - b) ≤ s.cap ∧ a + k + (s.items.length - b) ≤ USIZE_MAX
+  | .reserve n | .reserveExact n => s.items.length + n ≤ s.cap
+  | .shrinkToFit | .shrinkTo _ => False
+  | _ => True
+
+/-- **away from the capacity boundary the abstract vector has no freedom at all**: the step relation is a function -
+every alternative in `Spec.Step` other than "what `Vec` does" is tied to a full vector or an unrepresentable length -/
+theorem Spec.Step.deterministic (s s1 s2 : Spec) (op : VOp) (hr : op.Roomy s) (h1 : Spec.Step s op s1)
+    (h2 : Spec.Step s op s2) : s1 = s2 := by
+  have room_some : ∀ c, s.items.length < s.cap → s.Room (some c) → c = s.cap := by
+    intro c hlt hroom
+    cases hroom with
+    | room _ => rfl
+    | grow c hfull _ _ => omega
+  have room_none : s.items.length < s.cap → ¬ s.Room none := by
+    intro hlt hroom
+    cases hroom with
+    | refuse hfull => omega
+  cases op with
+  | push =>
+    cases h1 with
+    | push c1 hr1 => cases h2 with
+      | push c2 hr2 => rw [room_some c1 hr hr1, room_some c2 hr hr2]
+      | pushRefused hno => exact absurd hno (room_none hr)
+    | pushRefused hno => exact absurd hno (room_none hr)
+  | tpush =>
+    cases h1 with
+    | tpush c1 hr1 => cases h2 with
+      | tpush c2 hr2 => rw [room_some c1 hr hr1, room_some c2 hr hr2]
+      | tpushRefused hno => exact absurd hno (room_none hr)
+    | tpushRefused hno => exact absurd hno (room_none hr)
+  | insert i =>
+    cases h1 with
+    | insert _ c1 hi1 hr1 => cases h2 with
+      | insert _ c2 hi2 hr2 => rw [room_some c1 hr hr1, room_some c2 hr hr2]
+      | insertRefused _ hno => rcases hno with hlt | hno
+                               · omega
+                               · exact absurd hno (room_none hr)
+    | insertRefused _ hno1 => cases h2 with
+      | insert _ c2 hi2 hr2 => rcases hno1 with hlt | hno
+                               · omega
+                               · exact absurd hno (room_none hr)
+      | insertRefused _ hno2 => rfl
+  | tinsert i =>
+    cases h1 with
+    | tinsert _ c1 hi1 hr1 => cases h2 with
+      | tinsert _ c2 hi2 hr2 => rw [room_some c1 hr hr1, room_some c2 hr hr2]
+      | tinsertRefused _ hno => rcases hno with hlt | hno
+                                · omega
+                                · exact absurd hno (room_none hr)
+    | tinsertRefused _ hno1 => cases h2 with
+      | tinsert _ c2 hi2 hr2 => rcases hno1 with hlt | hno
+                                · omega
+                                · exact absurd hno (room_none hr)
+      | tinsertRefused _ hno2 => rfl
+  | splice a b k cs =>
+    obtain ⟨hr1, hr2⟩ := hr
+    cases h1 <;> cases h2 <;> first | rfl | (exfalso; omega)
+  | reserve n =>
+    have hr' : s.items.length + n ≤ s.cap := hr
+    cases h1 <;> cases h2 <;> first | rfl | (exfalso; omega)
+  | reserveExact n =>
+    have hr' : s.items.length + n ≤ s.cap := hr
+    cases h1 <;> cases h2 <;> first | rfl | (exfalso; omega)
+  | shrinkToFit => exact hr.elim
+  | shrinkTo n => exact hr.elim
+  | pop => cases h1; cases h2; rfl
+  | clear => cases h1; cases h2; rfl
+  | tpop => cases h1; cases h2; rfl
+  | popForget => cases h1; cases h2; rfl
+  | remove i => cases h1 <;> cases h2 <;> first | rfl | (exfalso; omega)
+  | swapRemove i => cases h1 <;> cases h2 <;> first | rfl | (exfalso; omega)
+  | tremove i => cases h1 <;> cases h2 <;> first | rfl | (exfalso; omega)
+  | tswapRemove i => cases h1 <;> cases h2 <;> first | rfl | (exfalso; omega)
+  | drain a b cs => cases h1 <;> cases h2 <;> first | rfl | (exfalso; omega)
+  | swap i j => cases h1 <;> cases h2 <;> first | rfl | (exfalso; omega)
+  | assign i => cases h1 <;> cases h2 <;> first | rfl | (exfalso; omega)
+  | removeForget i => cases h1 <;> cases h2 <;> first | rfl | (exfalso; omega)
+  | swapRemoveForget i => cases h1 <;> cases h2 <;> first | rfl | (exfalso; omega)
+  | drainForget a b => cases h1 <;> cases h2 <;> first | rfl | (exfalso; omega)
+
 /-- reads: `get(i)` shows the abstract item at `i` (`None` past the end) and changes nothing; `at(i)` likewise, with
 the `unwrap` panic past the end -/
 theorem get_refines (cfg : Cfg) (v ty i : Nat) (w : World) (s : Spec) (h : Rel bg v ty w s) :
